@@ -62,6 +62,10 @@ def step (d : DSt) (args : List String) : DSt × String :=
     match parseNat? n with
     | some n => ({ s := initSt, nTok := n, nUsers := 3 }, "ok")
     | none => (d, "bad-op")
+  | ["reimport"] =>
+    -- genesis export / wipe / import of the bridge module, as it behaves (window usage records are not exported)
+    let d' := { d with s := Paloma.Bridge.reimport d.s }
+    (d', showState d')
   | ["fund", u, t, a] =>
     match parseNat? u, parseNat? t, parseNat? a with
     | some u, some t, some a => let d' := { d with s := fund d.s u t a }; (d', showState d')
